@@ -227,7 +227,7 @@ func runCheck(prop, tier string, overlay map[string][]byte, mutantMode bool) (*C
 	}
 	pkgT := w.ByPkg[repoMod+"/"+cfg.Pkgs[0]].Types
 	axioms := append(builtinAxioms(), e.specAxioms(pkgT)...)
-	sv := &Solver{dir: dir, timeoutS: timeoutFor(tier), axioms: axioms, bySolver: map[string]int{}}
+	sv := &Solver{dir: dir, timeoutS: timeoutFor(tier), axioms: axioms, bySolver: map[string]int{}, retryTimeouts: !mutantMode}
 
 	// expand witnesses into two obligations: outside the witness must hold; inside is the known finding
 	var solveList []*Obligation
@@ -248,6 +248,9 @@ func runCheck(prop, tier string, overlay map[string][]byte, mutantMode bool) (*C
 	}
 	sv.run(solveList)
 	res.SolverMs, res.Queries, res.BySolver, res.Samples = sv.totalMs, sv.queries, sv.bySolver, sv.samples
+	if sv.retried > 0 {
+		res.Notes[fmt.Sprintf("%d obligation instance(s) ran out of time in the parallel pass and were decided in a second, sequential pass with three times the time", sv.retried)] = true
+	}
 
 	// vacuity guards (smoke test): "assert false" at a return must NOT be provable, i.e. the solver
 	// must fail to refute the path condition. Contradictory requires / axioms / invariants show up here.
